@@ -133,9 +133,9 @@ theorem dlbRule_full (n L : Nat) : lbRule (dlbCode .full) n L = true := by
 theorem dlbRule_slice (n L : Nat) : lbRule (dlbCode .slice) n L = decide (n = 0) := by
   simp [dlbCode, Facts.C39.dlgLastBatchSlice, lbRule]
 
-theorem dapply_hist (ds : List Dlg) (hd : DescD ds) (hp : ∀ x ∈ ds, x ≠ Dlg.zero) (ks : List Kind) (i : Nat)
-    (s : DIter) (hL : 0 < s.limit) (h : dbufHas s = false) (hlb : s.lastBatch = false) :
-    let a := dlgServer ds ks i s.off s.limit
+theorem dapply_hist (ds : List Dlg) (hd : DescD ds) (hp : ∀ x ∈ ds, x ≠ Dlg.zero) (ks : List Kind) (cap i : Nat)
+    (s : DIter) (hL : 0 < min s.limit cap) (h : dbufHas s = false) (hlb : s.lastBatch = false) :
+    let a := dlgServer ds ks cap i s.off s.limit
     let s' := s.apply a.1 a.2
     (dpending ds s = [] ∧ dbufHas s' = false) ∨
     (dbufHas s' = true ∧ dpending ds s' = dpending ds s ∧ s'.limit = s.limit) := by
@@ -143,10 +143,11 @@ theorem dapply_hist (ds : List Dlg) (hd : DescD ds) (hp : ∀ x ∈ ds, x ≠ Dl
   have hpend : dpending ds s = belowD ds s.off := by
     simp [dpending, hlb, List.drop_eq_nil_of_le (Nat.le_of_not_lt hb)]
   simp only [dlgServer]
-  cases hlast : ((belowD ds s.off).take s.limit).getLast? with
+  generalize hps : min s.limit cap = ps at hL ⊢
+  cases hlast : ((belowD ds s.off).take ps).getLast? with
   | none =>
     left
-    have hnil : (belowD ds s.off).take s.limit = [] := List.getLast?_eq_none_iff.mp hlast
+    have hnil : (belowD ds s.off).take ps = [] := List.getLast?_eq_none_iff.mp hlast
     have hrem : belowD ds s.off = [] := by
       rcases List.take_eq_nil_iff.mp hnil with h | h
       · omega
@@ -155,38 +156,39 @@ theorem dapply_hist (ds : List Dlg) (hd : DescD ds) (hp : ∀ x ∈ ds, x ≠ Dl
     simp [DIter.apply, hlb, hnil, dbufHas_eq]
   | some m =>
     right
-    have hne : (belowD ds s.off).take s.limit ≠ [] := by
+    have hne : (belowD ds s.off).take ps ≠ [] := by
       intro h; rw [h] at hlast; simp at hlast
     have hlenpos := List.length_pos_iff.mpr hne
-    by_cases hfull : (ks.getD i Kind.slice = Kind.full) ∧ (belowD ds s.off).length ≤ s.limit
+    by_cases hfull : (ks.getD i Kind.slice = Kind.full) ∧ (belowD ds s.off).length ≤ ps
     · -- complete answer: `messages.dialogs`
-      have hk : respKindD (ks.getD i Kind.slice) (belowD ds s.off).length s.limit = .full := by
+      have hk : respKindD (ks.getD i Kind.slice) (belowD ds s.off).length ps = .full := by
         unfold respKindD; rw [hfull.1]; simp [hfull.2]
-      have htake : (belowD ds s.off).take s.limit = belowD ds s.off := List.take_of_length_le hfull.2
+      have htake : (belowD ds s.off).take ps = belowD ds s.off := List.take_of_length_le hfull.2
       rw [hpend]
       simp only [hk, DIter.apply, hlb, Bool.false_eq_true, if_false, dlbRule_full, hlast, if_true]
       refine ⟨by simpa [dbufHas_eq] using hlenpos, ?_, trivial⟩
       simp [dpending, htake]
-    · have hk : respKindD (ks.getD i Kind.slice) (belowD ds s.off).length s.limit = .slice := by
+    · have hk : respKindD (ks.getD i Kind.slice) (belowD ds s.off).length ps = .slice := by
         unfold respKindD
         cases hkk : ks.getD i Kind.slice with
         | full =>
-          have : ¬ (belowD ds s.off).length ≤ s.limit := fun hh => hfull ⟨hkk, hh⟩
+          have : ¬ (belowD ds s.off).length ≤ ps := fun hh => hfull ⟨hkk, hh⟩
           simp [this]
         | slice => rfl
         | channel => rfl
-      have hlen0 : ¬ ((belowD ds s.off).take s.limit).length = 0 := by omega
+      have hlen0 : ¬ ((belowD ds s.off).take ps).length = 0 := by omega
       rw [hpend]
       simp only [hk, DIter.apply, hlb, Bool.false_eq_true, if_false, dlbRule_slice, hlast, hlen0, decide_false]
       refine ⟨by simpa [dbufHas_eq] using hlenpos, ?_, trivial⟩
-      have := belowD_last ds hd hp s.off s.limit m hlast
+      have := belowD_last ds hd hp s.off ps m hlast
       simp only [dpending, List.drop_zero, Bool.false_eq_true, if_false, this]
       exact List.take_append_drop _ _
 
-theorem drunS_exact (ds : List Dlg) (hd : DescD ds) (hp : ∀ x ∈ ds, x ≠ Dlg.zero) (ks : List Kind) :
+theorem drunS_exact (ds : List Dlg) (hd : DescD ds) (hp : ∀ x ∈ ds, x ≠ Dlg.zero) (ks : List Kind)
+    (cap : Nat) (hcap : 0 < cap) :
     ∀ (fuel i : Nat) (s : DIter), 0 < s.limit → (dpending ds s).length < fuel →
-      (drunS (dlgServer ds ks) fuel i s).yields = dpending ds s ∧
-      (drunS (dlgServer ds ks) fuel i s).done = true := by
+      (drunS (dlgServer ds ks cap) fuel i s).yields = dpending ds s ∧
+      (drunS (dlgServer ds ks cap) fuel i s).done = true := by
   intro fuel
   induction fuel with
   | zero => intro i s _ h; omega
@@ -205,13 +207,13 @@ theorem drunS_exact (ds : List Dlg) (hd : DescD ds) (hp : ∀ x ∈ ds, x ≠ Dl
         rw [drunS_stop _ _ _ _ hbh (by rw [dapply_lastBatch _ _ _ hlb]; exact hbh)]
         simp [dpending_lastBatch ds s hbh hlb]
       | false =>
-        rcases dapply_hist ds hd hp ks i s hL hbh hlb with ⟨hp0, hstop⟩ | ⟨hgo, hpe, hlim⟩
+        rcases dapply_hist ds hd hp ks cap i s (by omega) hbh hlb with ⟨hp0, hstop⟩ | ⟨hgo, hpe, hlim⟩
         · rw [drunS_stop _ _ _ _ hbh hstop]
           simp [hp0]
         · rw [drunS_go _ _ _ _ hbh hgo]
           have hc := dpending_consume ds _ hgo
-          have := ih (i + 1) (s.apply (dlgServer ds ks i s.off s.limit).1
-              (dlgServer ds ks i s.off s.limit).2).adv (by simpa [DIter.adv, hlim] using hL)
+          have := ih (i + 1) (s.apply (dlgServer ds ks cap i s.off s.limit).1
+              (dlgServer ds ks cap i s.off s.limit).2).adv (by simpa [DIter.adv, hlim] using hL)
             (by rw [← hpe, hc] at hfuel; simp at hfuel; omega)
           rw [← hpe, hc]
           exact ⟨by simp [this.1], this.2⟩
